@@ -8,8 +8,8 @@ from bitarray.util import ba2int, int2ba
 from common import bits_str, hex_str, impl_error
 
 PROP = "C05"
-MODULES = ["C05", "C05a", "C05b"]
-GEN = ["Crc"]
+MODULES = ["C05", "C05a", "C05b", "C05t"]
+GEN = ["Crc", "TranslBitsBytes"]
 MATCHERS = {}
 # extra files for the drift detector (the front ends' byte/bit plumbing lives here)
 ANCHORS = ["okdmr/dmrlib/utils/bits_bytes.py"]
@@ -2985,7 +2985,50 @@ def ENTRY_POINTS():
     return eps
 
 
+def run_transl(ctx):
+    """Differential validation of the source translator (tools/py2lean.py + tools/py2lean_arr.py) and its preludes, trusted base of
+    Props/C05t: the byte-order helpers TRANSLATED from the source of utils/bits_bytes.py (`Gen/TranslBitsBytes.lean`, driver
+    operations `t.bb.*`) against the real byteswap_bytes / byteswap_bytearray / half_byte_to_bytes: every length 0..40 and some
+    longer ones, odd and even, half-byte values -3..20 and out of range, repetition counts -1..7 and the default.  A difference
+    is a translator or prelude bug, never a finding about /repo."""
+    if ctx.search_only or not ctx.driver_ok:
+        return
+    from okdmr.dmrlib.utils.bits_bytes import byteswap_bytes as _sw, byteswap_bytearray as _swa, half_byte_to_bytes as _hb
+    rng = ctx.rng
+
+    def hx(b):
+        return bytes(b).hex() if len(b) else "-"
+
+    def res(fn, *a):
+        try:
+            return hx(fn(*a))
+        except Exception as e:  # noqa
+            return impl_error(e)
+
+    pairs = []
+    for n in list(range(0, 41)) + [63, 64, 255, 256, 1001]:
+        for _ in range(ctx.budget(2, 10)):
+            d = bytes(rng.randrange(256) for _ in range(n))
+            pairs.append(("t.bb.swap " + hx(d), res(_sw, d)))
+            pairs.append(("t.bb.swapba " + hx(d), res(_swa, bytearray(d))))
+            ctx.count("transl:byteswap_bytes")
+            ctx.count("transl:byteswap_bytearray")
+    for h in list(range(-3, 21)) + [255, 256, 4095, -16]:
+        for n in (-1, 0, 1, 2, 3, 7):
+            pairs.append((f"t.bb.half {h} {n}", res(_hb, h, n)))
+            ctx.count("transl:half_byte_to_bytes")
+        pairs.append((f"t.bb.half1 {h}", res(_hb, h)))
+        ctx.count("transl:half_byte_to_bytes")
+    ctx.correspond("transl", pairs)
+
+
 def run(ctx):
+    ctx.trusted_base += [
+        "tools/py2lean.py + tools/py2lean_arr.py + tools/extract_transl.py (source translator: Gen/TranslBitsBytes.lean from inspect.getsource of byteswap_bytes / "
+        "byteswap_bytearray / half_byte_to_bytes) and lean/DmrVerif/Model/Py.lean, PyArr.lean (semantics of the Python subset); validated on every run by t.bb.* "
+        "(run_transl); Props/C05t proves the translated definitions equal to the models' byteswap / halfByte",
+    ]
+    run_transl(ctx)
     ctx.rule = (
         "engine: for each of the five ETSI configurations every length 0..120 (thorough 0..400) with 2-3 random contents "
         "(+ all-ones/alternating/all-zero at some lengths), all unit vectors of many lengths, in bit-by-bit and table mode, "
